@@ -1003,6 +1003,22 @@ fn cmd_patch_random(args: &[String]) {
             "sync":o.sync,"async":o.asy,"sync_hash_ok":o.sync_hash_ok,"async_hash_ok":o.asy_hash_ok,"cli":cli,"cli_hash_ok":cli_hash_ok,"bs_valid":bs_valid,
             "R":r,"corruptions":corrs}));
     }
+    // one UNCORRUPTED pair whose delta carries a single literal of 3 MiB (more than a file or a pipe takes in one write call):
+    // success must still mean "the bytes produced hash to the checksum", in both engines and through `copia patch`
+    {
+        let r = 2048usize;
+        let basis: Vec<u8> = vec![0u8; 64 * 1024];
+        let source: Vec<u8> = (0..3 * 1024 * 1024).map(|_| rng.gen()).collect();
+        let sync = CopiaSync::with_block_size(r);
+        let sig = sync.signature(Cursor::new(&basis)).unwrap();
+        let d: Delta = sync.delta(Cursor::new(&source), &sig).unwrap();
+        let o = patchc::run_lib(&rt, &basis, &d);
+        let (cli, cli_hash_ok, _e) = patchc::run_cli(copia, &dir, &basis, &d, None);
+        let ops: Vec<Value> = d.ops.iter().map(|op| match op { DeltaOp::Copy { offset, len } => json!(["C", *offset, u64::from(*len)]), DeltaOp::Literal(x) => json!(["L", x.len()]) }).collect();
+        w.write(&json!({"ops":ops,"bsize":d.basis_size,"ssize":d.source_size,"blen":basis.len(),"indep_ok":true,"huge":false,
+            "sync":o.sync,"async":o.asy,"sync_hash_ok":o.sync_hash_ok,"async_hash_ok":o.asy_hash_ok,"cli":cli,"cli_hash_ok":cli_hash_ok,"bs_valid":true,
+            "R":r,"corruptions":["none: one literal of 3 MiB"]}));
+    }
     w.finish();
     let _ = std::fs::remove_dir_all(&dir);
 }
